@@ -103,7 +103,7 @@ def run(chk: core.Check):
     # the same texts once more with an EMPTY stack, after the default stack has worked on them: verbatim values are a
     # function of the text, not of what an earlier call did with the blocks it got
     again = docs[:300]
-    recs = splitpipe.t3(chk, bib, [d.text for d in again], how="parse0", grammar=True)
+    recs = splitpipe.t3(chk, bib, [d.text for d in again], how="parse0_after_default", grammar=True)
     for d, r in zip(again, recs):
         if r["raised"]:
             report(chk, d.text, "raised", r["raised"], [], r["exp"], "parse0 after default")
